@@ -9,8 +9,8 @@
    [forall rs].  [eecc_run g m0 rs] is the model of [EECC.get_EECC] (Model/Eecc.v): [o_cover] the
    returned list, [o_graph] the working graph afterwards, [o_status] 0 iff the loop ended normally
    (1 = fuel |E|+1 exhausted, 2 = the ValueError of min() on an empty list). *)
-From Coq Require Import List Arith Bool.
-From GV Require Import Lib.Tree Lib.GraphE Model.Eecc Proofs.EeccP Proofs.EeccGenP Proofs.EeccFloatP Proofs.EeccSmallP Proofs.EeccWireP Proofs.EeccFastP.
+From Coq Require Import List Arith Bool NArith.
+From GV Require Import Lib.Tree Lib.GraphE Model.Eecc Proofs.EeccP Proofs.EeccGenP Proofs.EeccFloatP Proofs.EeccSmallP Proofs.EeccWireP Proofs.EeccFastP Proofs.EeccFastSmallP.
 Import ListNotations.
 
 (* the property, at full strength (all simple graphs, all m0 >= 2, all schedules) *)
@@ -115,6 +115,16 @@ Theorem C09_check_isolated_fast_eq :
   forall g m0 c, loopless g -> isolated_ok_fast_b g m0 c = isolated_ok_b g m0 c.
 Proof. exact isolated_ok_fast_eq. Qed.
 Print Assumptions C09_check_isolated_fast_eq.
+
+(* BOUNDED, independent of the general equivalence above (reflection, vm_compute): on all 1024 edge subsets of K5,
+   every bound 1..6 and three probe covers per graph - every edge as a 2-clique, all maximal cliques, all maximal
+   cliques but the first - the polynomial test and the brute force return the same boolean (13557 probes accepted,
+   4875 rejected: C09_fast_probe_counts). *)
+Theorem C09_check_isolated_fast_agrees_upto_5 :
+  forall g m0 c, subseq g (all_pairs 5) -> 1 <= m0 <= 6 -> In c (probe_covers g) ->
+    isolated_ok_fast_b g m0 c = isolated_ok_b g m0 c.
+Proof. exact fast_agrees_upto_5. Qed.
+Print Assumptions C09_check_isolated_fast_agrees_upto_5.
 
 (* GENERAL, wire level: the entry c09_check_full_fast (run on the implementation's covers of the 25-160 vertex
    graphs, where the brute force cannot enumerate maximal cliques) answers, for EVERY tree, exactly what c09_check
@@ -239,3 +249,8 @@ Proof.
   - intros e He. cbn [In] in He. repeat (destruct He as [He | He]; [subst e; cbn [fst snd]; discriminate |]). destruct He.
   - vm_compute. repeat split; reflexivity.
 Qed.
+
+(* both verdicts occur often among the probes of the bounded comparison *)
+Example C09_fast_probe_counts :
+  count_verdicts (all_graphs 5) [1; 2; 3; 4; 5; 6] = (13557%N, 4875%N).
+Proof. exact graphs5_verdict_counts. Qed.
